@@ -1,0 +1,9 @@
+//go:build verif
+
+package base58
+
+// Exports for the verification harness (build tag "verif").
+
+func VerifAlphabet() string { return alphabet }
+
+func VerifB58() [256]byte { return b58 }
